@@ -54,6 +54,8 @@ type vkT struct {
 	w  *vkWorld
 }
 type vkG struct{ n int }
+type vkC struct{ _ int }
+type vkD struct{ _ int }
 
 func (x *vkA) Close() error { return x.w.closing(x.id) }
 func (x *vkB) Close() error { return x.w.closing(x.id) }
@@ -64,6 +66,8 @@ var (
 	vkTypeB = reflect.TypeOf((*vkB)(nil))
 	vkTypeT = reflect.TypeOf((*vkT)(nil))
 	vkTypeG = reflect.TypeOf((*vkG)(nil))
+	vkTypeC = reflect.TypeOf((*vkC)(nil))
+	vkTypeD = reflect.TypeOf((*vkD)(nil))
 
 	vkErrCtor  = errors.New("vk: constructor failed")
 	vkErrInit  = errors.New("vk: initializer failed")
@@ -229,6 +233,12 @@ func vkNewWorld(stress bool) (*vkWorld, error) {
 	}
 	if err := c.AddScoped(func() error { return w.initializer() }); err != nil {
 		return nil, err
+	}
+	if stress {
+		// a second scoped service, independent of A and B (stress stream only: M6 does not know it)
+		if err := c.AddScoped(func() *vkC { return &vkC{} }); err != nil {
+			return nil, err
+		}
 	}
 	p, err := c.Build()
 	if err != nil {
@@ -1065,6 +1075,44 @@ func TestVerifConcStress(t *testing.T) {
 				}
 			}()
 			f()
+		}
+		// fresh-scope bursts: the FIRST resolutions in a scope, of two independent scoped services, start together;
+		// whatever the scope sets up on first use must not lose one of the two instances (C02, C09)
+		// (a provider of its own, without initializers: nothing is stored in the scope before the two resolutions)
+		bc := NewCollection()
+		bc.AddScoped(func() *vkC { return &vkC{} })
+		bc.AddScoped(func() *vkD { return &vkD{} })
+		bprov, berr := bc.Build()
+		for burst := 0; berr == nil && burst < 300; burst++ {
+			sc, err := bprov.CreateScope(nil)
+			if err != nil {
+				break
+			}
+			start := make(chan struct{})
+			var got [2][2]any
+			var bw sync.WaitGroup
+			for k, typ := range []reflect.Type{vkTypeD, vkTypeC} {
+				bw.Add(1)
+				go func(k int, typ reflect.Type) {
+					defer bw.Done()
+					<-start
+					got[k][0], _ = sc.Get(typ)
+				}(k, typ)
+			}
+			close(start)
+			bw.Wait()
+			got[0][1], _ = sc.Get(vkTypeD)
+			got[1][1], _ = sc.Get(vkTypeC)
+			for k := range got {
+				if got[k][0] != nil && got[k][1] != nil && got[k][0] != got[k][1] {
+					report(round, "C09,C02", "a fresh scope handed out two different instances of a scoped service: the first one, resolved while another scoped service was being resolved for the first time in that scope, was lost")
+				}
+			}
+			sc.Close()
+			count("fresh_scope_burst")
+		}
+		if berr == nil {
+			bprov.Close()
 		}
 		var wg sync.WaitGroup
 		for g := 0; g < G; g++ {
